@@ -9,7 +9,7 @@ from .. import nodegen
 ID = "C13"
 SUITES = ["frame", "table", "node"]
 LEAN_MODULES = ["VpnCloud.Proofs.C13", "VpnCloud.Proofs.C13Node", "VpnCloud.Proofs.TableRefine", "VpnCloud.Proofs.GuardsUsed", "VpnCloud.Proofs.C13More"]
-THEOREMS = ["VpnCloud.Proofs.C13." + n for n in ("learn_spec", "learn_last_writer", "learn_expiry", "disconnect_forgets", "vlan_normalised", "vlan_normalised_model", "vlan_tag_injective", "tagged_ne_untagged")] + [
+THEOREMS = ["VpnCloud.Proofs.C13." + n for n in ("learn_spec", "learn_last_writer", "learn_expiry", "disconnect_forgets", "vlan_normalised", "vlan_normalised_model", "vlan_tag_injective", "tagged_ne_untagged", "learn_overrides")] + [
             "VpnCloud.Proofs.C13Node.no_learning_unless_flag", "VpnCloud.Proofs.C13Node.learning_records_source"]
 THEOREMS = THEOREMS + ["VpnCloud.Proofs.TableRefine." + n for n in ('table_refines', 'learned_until', 'learned_is_a_map', 'announce_drop_flushes_learned')]
 THEOREMS = THEOREMS + ["VpnCloud.Proofs.GuardsUsed." + n for n in ('cacheLive_boundary', 'learned_survives_until_timeout')]
